@@ -127,7 +127,7 @@ PROPS = {
                 "and two siblings are solved on the same instance and must equal a fresh solver's answers (thorough: a second injected panic during the retry for every 5th point). "
                 "Hook H3 records what Drop for SolveState saw. Non-trivial = crash point reached and all retries equal fresh; distinct = (program, goal, solver, n).",
         "min_evals": 15000, "min_nontrivial": 8000, "exhaustive": False,
-        "require_observed": ["retry==fresh:slg", "retry==fresh:recursive", "crash:slg:stack-empty-at-unwind", "goals-with-all-crash-points-enumerated"],
+        "require_observed": ["retry==fresh:slg", "retry==fresh:recursive", "crash:slg:stack-empty-at-unwind", "crash:slg:mid-step:in-flight-strand-requeued", "goals-with-all-crash-points-enumerated"],
         "assumptions": COMMON_ASSUME,
     },
     "C13": {
@@ -149,6 +149,37 @@ PROPS = {
         "require_observed": ["well-formed:slg:unique", "well-formed:recursive:unique", "well-formed:slg:enumerated-answers", "nontrivial:lifetimes+consts+nested-forall", "well-formed:slg:definite"],
         "assumptions": COMMON_ASSUME,
     },
+    "C14": {
+        "level": "exploration",
+        "rule": "cases = 25 fresh inference tables each: 1-5 unknowns (general/integer/float/const/lifetime) created in universes 0-3, then 1-5 relate() calls in sequence on pairs of "
+                "terms of depth <= 3 over ADTs, tuples, slices, refs, raw pointers, arrays with const lengths, scalars, placeholders of universes 1-3 (55% of the pairs are variants of "
+                "each other); oracle = independent Robinson unifier with occurs check, kind restriction and universe rule; refuted by success mismatch, a non-outlives obligation, or a "
+                "canonical form of all unknowns (kinds + universes of general unknowns) that differs from the oracle's MGU. 25% of lifetime-free pairs are related covariantly. "
+                "Non-trivial = a successful relate whose result was compared with the MGU; distinct = the history so far.",
+        "min_evals": 100000, "min_nontrivial": 30000,
+        "require_observed": ["mgu-agrees:invariant", "mgu-agrees:covariant-lifetime-free", "both-fail"],
+        "assumptions": COMMON_ASSUME + ["universes of integer/float unknowns are not compared (chalk does not demote them; they cannot name placeholders)"],
+    },
+    "C15": {
+        "level": "exploration",
+        "rule": "same workload as C14; before every relate() the table is fingerprinted (canonical form of all unknowns incl. lifetimes, consts, binder universes; next fresh variable; next "
+                "fresh universe) and relate(b,a) is tried on a clone; refuted when a failed relate changes the fingerprint or when relate(a,b) and relate(b,a) disagree on success. "
+                "Non-trivial = a failed relate (after >= 0 earlier successes/failures) whose state was compared; distinct = the history so far.",
+        "min_evals": 100000, "min_nontrivial": 30000,
+        "require_observed": ["failed-relate-left-state-untouched", "order-insensitive:success"],
+        "assumptions": COMMON_ASSUME,
+    },
+    "C16": {
+        "level": "exploration",
+        "rule": "cases = 10 specs each: 2-7 unknowns of every kind in universes 0-7, 0-2 prior unifications, a value of 1-4 generic args (types of depth <= 3 with refs/arrays, lifetimes, consts, "
+                "placeholders of universes 1-7). Checks: first-occurrence numbering; binder kind/universe equals the class info of an independent union-find oracle; permuted creation and "
+                "unification order gives the identical form; a non-renaming (kind change, merge, universe change the oracle says is visible) gives a different form; "
+                "canonicalize(instantiate(c)) == c; u_canonicalize is order-preserving, dense and undone exactly by map_from_canonical; invert refuses free unknowns and replaces every placeholder. "
+                "Non-trivial = a spec that passed through all checks; distinct = the spec.",
+        "min_evals": 15000, "min_nontrivial": 10000,
+        "require_observed": ["renaming-gives-same-form", "non-renaming-gives-different-form:universe changed", "nontrivial:compression-with-gaps", "instantiate-canonicalize-roundtrip", "invert:placeholders-to-unknowns", "invert:refused-free-unknowns"],
+        "assumptions": COMMON_ASSUME,
+    },
 }
 
-HOOK_COMMITS = ["d77ca2a", "4f79b4b", "3978b55"]
+HOOK_COMMITS = ["d77ca2a", "4f79b4b", "3978b55", "ebc00bf"]
